@@ -393,6 +393,11 @@ class ConfigLoader(BaseLoader):
         self._private_schema = False
 
     def loadResource(self, resource):
+        if self._private_schema:
+            # an earlier load through this loader used %import; its
+            # extended schema must not be visible to this load
+            self.schema = self._shared_schema
+            self._private_schema = False
         sm = self.createSchemaMatcher()
         self._parse_resource(sm, resource)
         result = sm.finish(), CompositeHandler(sm.handlers, self.schema)
@@ -420,6 +425,7 @@ class ConfigLoader(BaseLoader):
         if not self._private_schema:
             # replace the schema with an extended schema on the first %import
             self._loader = SchemaLoader(self.schema.registry)
+            self._shared_schema = self.schema
             schema = ZConfig.info.createDerivedSchema(self.schema)
             self._private_schema = True
             self.schema = schema
